@@ -29,7 +29,7 @@ CLAIM = dict(
          'decoder accepts nothing else; C10_size_from_source / C10_tables_from_source / C10_spec_tables_from_source / C10_formats_match_sizes: '
          'the model size(), width and format tables and the Spec directive tables EQUAL what is regenerated from the size() methods and '
          'dictionaries of asm.py on every run; C10_sizes: on ANY item list the data passes accept, size() of each item equals the length of its final '
-         'chunk and every include_bytes file had the announced size; C10_int_line: `db|dh|dw|dd <literal>` from the token line through the parser model and all 16 passes to the documented bytes or a refusal at its line; C10_string_line: from the source line -- for plain ASCII text without a backslash the lexer, parser and pass models emit exactly the character codes of the text of a `string` line; C10_string / C10_include_bytes: pass-through facts. Tie: pipeline '
+         'chunk and every include_bytes file had the announced size; C10_int_line: `db|dh|dw|dd <literal>` from the token line through the parser model and all 16 passes to the documented bytes or a refusal at its line; C10_int_line_text: the same with the literal given as text (decimal or hex spelling of any value below 2^64); C10_string_line: from the source line -- for plain ASCII text without a backslash the lexer, parser and pass models emit exactly the character codes of the text of a `string` line; C10_string / C10_include_bytes: pass-through facts. Tie: pipeline '
          'correspondence of the pass model on data-heavy programs. Falsifier: real assembler vs the Coq Spec (coqc) and CPython oracles over all '
          'widths x bounds, all pack formats, ASCII / escape / Latin-1 / BMP / astral strings, include_bytes beside the source, in '
          'sub-directories and -i directories from three working directories.',
